@@ -44,6 +44,11 @@ pub fn scenarios(thorough: bool) -> Vec<Scenario> {
     let mut v = vec![sc("custom02-liquidity", NetID::Custom02, 0, cfg_liquidity(), if thorough { 11 } else { 8 })];
     v.push(sc("custom02-two-pools-three-requests-per-block", NetID::Custom02, 0, cfg_two_pools(), if thorough { 11 } else { 10 }));
     v.push(sc("testnet-ergsym-before-tip902", NetID::Testnet, 0, cfg_ergsym_before_902(), if thorough { 13 } else { 11 }));
+    // near-requests (a deposit with its sides exchanged, a withdrawal with change to another address) among the genuine ones
+    let mut odd = cfg_liquidity();
+    odd.odd_shapes = true;
+    odd.swaps = false;
+    v.push(sc("custom02-liquidity-with-near-requests", NetID::Custom02, 0, odd, if thorough { 9 } else { 7 }));
     v.extend(genesis_scenarios(["custom02-genesis-sym-feepool-stake", "custom02-genesis-erg-fees-stakes", "custom02-genesis-huge-mel-feepool"], NetID::Custom02, &cfg_liquidity(), if thorough { 8 } else { 6 }));
     if thorough {
         v.push(sc("testnet-liquidity", NetID::Testnet, 0, cfg_liquidity(), 8));
